@@ -21,6 +21,14 @@ LevelCyclic(P, items, params) ==
   CyclicTypes(P, items, params)
   \cup UNION {LevelCyclic(P, P.sets[items[j].i].items, <<>>) : j \in {x \in DOMAIN items : items[x].k = "set"}}
 
+\* fault schedules: one entry per injector call, "" = no failure, else the provider told to fail.
+\* Family R: two clean calls, every single failure point, and alternations fail/ok/fail, ok/fail/ok.
+Scheds(P, inj) ==
+  LET F == {P.leaves[i].name : i \in {j \in NeededFuncs(P, inj) : HasEr(P.leaves[j])}} IN
+  IF P.fam = "R"
+  THEN SetToSeq({<<"", "">>} \cup {<<p>> : p \in F} \cup {<<p, "", p>> : p \in F} \cup {<<"", p, "">> : p \in F})
+  ELSE <<<<"", "">>>>
+
 ItemName(P, it) == IF it.k = "leaf" THEN P.leaves[it.i].name ELSE P.sets[it.i].name
 
 InjExpect(P, inj) ==
@@ -36,7 +44,8 @@ InjExpect(P, inj) ==
       missing   |-> IF lvl THEN Missing(P, inj) ELSE {},
       unused    |-> IF lvl /\ Missing(P, inj) = {} THEN {ItemName(P, inj.items[j]) : j \in UnusedItems(P, inj)} ELSE {},
       funcs     |-> IF v # "no" THEN {P.leaves[i].name : i \in NeededFuncs(P, inj)} ELSE {},
-      wiring    |-> IF v # "no" THEN Wiring(P, inj) ELSE [t \in {} |-> 0]]
+      wiring    |-> IF v # "no" THEN Wiring(P, inj) ELSE [t \in {} |-> 0],
+      scheds    |-> IF v # "no" THEN Scheds(P, inj) ELSE <<>>]
 
 Case(P) == [key |-> P.key, fam |-> P.fam, prog |-> P,
             expect |-> [i \in DOMAIN P.injs |-> InjExpect(P, P.injs[i])]]
@@ -69,31 +78,371 @@ FamilyG(p, n, kinds, wraps) ==
   \E kd \in (IF kinds = "f" THEN {[i \in 1..n |-> "f"]} ELSE [1..n -> {"f", "p", "n"}]) :
     \E E \in SUBSET ({i \in 1..n : kd[i] = "f"} \X (1..n)) :
       \E w \in wraps : p = GProg(n, E, kd, w)
-======================================================================== *)
-(* Family G: every digraph over n types.  Node kinds: "f" provider function *)
-(* (its parameters are its successors, ascending), "p" injector parameter,  *)
-(* "n" nothing provides it.  Only "f" nodes have outgoing edges.  The       *)
-(* injector asks for T1.  wrap: "set" = wire.Build(SetA) with all providers *)
-(* in SetA (so unused or cyclic parts are legal/visible), "dir" = all       *)
-(* providers passed to wire.Build directly.                                 *)
-(* ======================================================================== *)
-EdgeCode(n, E) == SumSeq([k \in 1..(n * n) |->
-                    IF <<((k - 1) \div n) + 1, ((k - 1) % n) + 1>> \in E THEN Pow2(k - 1) ELSE 0])
-GProg(n, E, kd, wrap) ==
-  LET fn     == SeqOfSet({i \in 1..n : kd[i] = "f"})
-      succ(i)== SeqOfSet({j \in 1..n : <<i, j>> \in E})
-      leaves == [k \in DOMAIN fn |-> Func(PN(fn[k]), [x \in DOMAIN succ(fn[k]) |-> TN(succ(fn[k])[x])], TN(fn[k]), FALSE, FALSE)]
-      pars   == SeqOfSet({i \in 1..n : kd[i] = "p"})
-      params == [k \in DOMAIN pars |-> Par("a" \o ToString(pars[k]), TN(pars[k]))]
-      all    == [k \in DOMAIN fn |-> ItL(k)]
-      key    == "G/n" \o ToString(n) \o "/e" \o ToString(EdgeCode(n, E)) \o "/" \o ConcatStr(kd) \o "/" \o wrap
-  IN Prog(key, "G", [i \in 1..n |-> Tok(TN(i))], leaves,
-          IF wrap = "set" THEN <<SetD("SetA", "a", all)>> ELSE <<>>,
-          <<Inj("Inject", params, TN(1), FALSE, FALSE, IF wrap = "set" THEN <<ItS(1)>> ELSE all)>>)
 
-\* kinds: "all" = every assignment of {f,p,n}; "f" = all nodes are providers (the cycle family)
-FamilyG(n, kinds, wraps) ==
-  UNION { UNION { { GProg(n, E, kd, w) : w \in wraps }
-                  : E \in SUBSET ({i \in 1..n : kd[i] = "f"} \X (1..n)) }
-          : kd \in IF kinds = "f" THEN {[i \in 1..n |-> "f"]} ELSE [1..n -> {"f", "p", "n"}] }
+
+(* ======================================================================== *)
+(* Family R (run time): DAGs of n provider functions in every flavour       *)
+(* assignment {plain, error, cleanup, cleanup+error}^n.  Edges go from i to *)
+(* a larger j and every node but T1 has a predecessor, so every provider is *)
+(* needed.  inj: "ce" the injector declares cleanup and error, "min" it     *)
+(* declares exactly what it needs.  Exported with fault schedules.          *)
+(* ======================================================================== *)
+FlCl(c) == c \in {"c", "b"}
+FlEr(c) == c \in {"e", "b"}
+RProg(n, E, fl, injd) ==
+  LET succ(i) == SeqOfSet({j \in 1..n : <<i, j>> \in E})
+      leaves  == [i \in 1..n |-> Func(PN(i), [x \in DOMAIN succ(i) |-> TN(succ(i)[x])], TN(i), FlCl(fl[i]), FlEr(fl[i]))]
+      ncl     == \E i \in 1..n : FlCl(fl[i])
+      ner     == \E i \in 1..n : FlEr(fl[i])
+      key     == "R/n" \o ToString(n) \o "/e" \o ToString(EdgeCode(n, E)) \o "/" \o ConcatStr(fl) \o "/" \o injd
+  IN Prog(key, "R", [i \in 1..n |-> Tok(TN(i))], leaves, <<>>,
+          <<Inj("Inject", <<>>, TN(1), IF injd = "ce" THEN TRUE ELSE ncl, IF injd = "ce" THEN TRUE ELSE ner,
+                [i \in 1..n |-> ItL(i)])>>)
+FamilyR(p, n) ==
+  \E E \in SUBSET {e \in (1..n) \X (1..n) : e[1] < e[2]} :
+    /\ \A j \in 2..n : \E i \in 1..(j - 1) : <<i, j>> \in E
+    /\ \E fl \in [1..n -> {"p", "e", "c", "b"}] :
+         \E injd \in {"ce", "min"} : p = RProg(n, E, fl, injd)
+
+(* ======================================================================== *)
+(* Family K (ambiguity): two sources of one type t, for every pair of       *)
+(* source kinds that can provide t, in every placement.                     *)
+(* ======================================================================== *)
+KTypes == {"T1", "*T1", "S1", "*S1", "I1", "[]T1"}
+KKinds(t) ==
+  CASE t = "T1"   -> {"func", "value", "field", "param"}
+    [] t = "*T1"  -> {"func", "value", "field", "fieldptr", "param"}
+    [] t = "S1"   -> {"func", "struct", "value", "field", "param"}
+    [] t = "*S1"  -> {"func", "struct", "value", "field", "fieldptr", "param"}
+    [] t = "I1"   -> {"func", "ivalue", "bind", "field", "param"}
+    [] t = "[]T1" -> {"func", "value", "field", "param"}
+KPlaces == {"same", "nested", "sibling", "inner", "deep", "otherpkg"}
+\* the leaves source number n (1 or 2) of kind k contributes: the source itself first, then what it needs
+KSrcLeaves(k, t, n, pkg) ==
+  LET sn == ToString(n)
+      par == "S" \o ToString(n + 1)
+  IN CASE k = "func"     -> <<FuncIn("F" \o sn, pkg, <<>>, t, FALSE, FALSE)>>
+       [] k = "value"    -> <<ValueL("V" \o sn, t)>>
+       [] k = "struct"   -> <<StructL("St" \o sn, "S1", <<>>, FALSE)>>
+       [] k = "ivalue"   -> <<IValueL("IV" \o sn, "I1", "C1")>>
+       [] k = "bind"     -> <<BindL("B" \o sn, "I1", IF n = 1 THEN "C1" ELSE "*C2"),
+                              FuncIn("PC" \o sn, pkg, <<>>, IF n = 1 THEN "C1" ELSE "*C2", FALSE, FALSE)>>
+       [] k = "field"    -> <<FieldsL("FO" \o sn, par, <<"F">>), FuncIn("PS" \o sn, pkg, <<>>, par, FALSE, FALSE)>>
+       [] k = "fieldptr" -> <<FieldsL("FO" \o sn, Ptr(par), <<"F">>), FuncIn("PS" \o sn, pkg, <<>>, Ptr(par), FALSE, FALSE)>>
+       [] OTHER          -> <<>>      \* param, twice
+\* type of field F of the parent struct of source n
+KFieldType(k, t) == IF k = "fieldptr" THEN (IF t = "*T1" THEN "T1" ELSE "S1") ELSE t
+KProg(t, k1, k2, place, used) ==
+  LET tp   == IF place = "otherpkg" THEN "c" ELSE "a"       \* package of the types
+      sp   == IF place = "otherpkg" THEN "b" ELSE "a"       \* package of source 1 and its set
+      atoms == << TokIn("T1", tp), TokIn("T8", tp), TokIn("T9", tp),
+                  MkAtom("C1", "tok", tp, <<>>, <<>>, <<Impl("I1", "value")>>, ""),
+                  MkAtom("C2", "tok", tp, <<>>, <<>>, <<Impl("I1", "pointer")>>, ""),
+                  Iface("I1", tp, <<>>),
+                  StructT("S1", tp, <<Fld("X", "T8")>>),
+                  StructT("S2", tp, <<Fld("F", KFieldType(k1, t))>>),
+                  StructT("S3", tp, <<Fld("F", KFieldType(k2, t))>>) >>
+      l1   == KSrcLeaves(k1, t, 1, sp)
+      l2   == KSrcLeaves(k2, t, 2, "a")
+      cons == Func("P9", IF used THEN <<t>> ELSE <<>>, "T9", FALSE, FALSE)
+      leaves == l1 \o l2 \o <<cons>>
+      i1   == [j \in DOMAIN l1 |-> ItL(j)]
+      i2   == [j \in DOMAIN l2 |-> ItL(Len(l1) + j)]
+      ic   == <<ItL(Len(l1) + Len(l2) + 1)>>
+      params == (IF k1 = "param" THEN <<Par("x1", t)>> ELSE <<>>) \o (IF k2 = "param" THEN <<Par("x2", t)>> ELSE <<>>)
+      sets == CASE place \in {"nested", "otherpkg"} -> <<SetD("SetA", sp, i1)>>
+                [] place = "sibling" -> <<SetD("SetA", "a", i1), SetD("SetB", "a", i2)>>
+                [] place = "inner"   -> <<SetD("SetA", "a", i1 \o i2)>>
+                [] place = "deep"    -> <<SetD("SetA", "a", i1), SetD("SetB", "a", <<ItS(1)>>)>>
+                [] place = "twice"   -> <<SetD("SetA", "a", i1), SetD("SetB", "a", <<ItS(1)>>)>>
+                [] OTHER -> <<>>
+      bitems == CASE place = "same" -> i1 \o i2 \o ic
+                  [] place \in {"nested", "otherpkg"} -> <<ItS(1)>> \o i2 \o ic
+                  [] place = "sibling" -> <<ItS(1), ItS(2)>> \o ic
+                  [] place = "inner"   -> <<ItS(1)>> \o ic
+                  [] place = "deep"    -> <<ItS(2)>> \o i2 \o ic
+                  [] place = "twice"   -> <<ItS(1), ItS(2)>> \o ic
+      key  == "K/" \o t \o "/" \o k1 \o "+" \o k2 \o "/" \o place \o "/" \o (IF used THEN "used" ELSE "unused")
+  IN Prog(key, "K", atoms, leaves, sets, <<Inj("Inject", params, "T9", FALSE, FALSE, bitems)>>)
+KOrd(k) == CHOOSE i \in 1..8 : <<"func", "value", "struct", "ivalue", "bind", "field", "fieldptr", "param">>[i] = k
+FamilyK(p, types) ==
+  \E t \in types : \E k1 \in KKinds(t) : \E used \in BOOLEAN :
+     \/ \E k2 \in KKinds(t) : \E place \in KPlaces :
+          /\ KOrd(k1) <= KOrd(k2) \/ place \in {"nested", "deep", "otherpkg"}    \* unordered pair unless the placement is asymmetric
+          /\ k1 = "param" => place = "same"
+          /\ k2 = "param" => place \in {"same", "nested", "otherpkg"}
+          /\ p = KProg(t, k1, k2, place, used)
+     \/ k1 # "param" /\ p = KProg(t, k1, "twice", "twice", used)
+
+(* ======================================================================== *)
+(* Family B (bindings).  C is a struct type with the marker method of the   *)
+(* interface on a value or pointer receiver; wire.Bind(new(I), new(bound)); *)
+(* the bound type is provided in one of six ways; one or two consumers of I *)
+(* and optionally one of the bound type; the binding sits next to / above / *)
+(* below the provider of the bound type.  Near misses: no binding at all,   *)
+(* binding an interface to itself, binding a type that does not implement.  *)
+(* ======================================================================== *)
+BProg(recv, ptr, ifc, how, nI, nC, coloc, mode) ==
+  LET bound == IF ptr THEN "*C" ELSE "C"
+      I     == CASE ifc = "plain" -> "I1" [] ifc = "embed" -> "I2" [] OTHER -> "I3"
+      atoms == << Tok("T5"), Tok("T6"), Tok("T7"), Tok("T8"), Tok("T9"),
+                  Iface("I1", "a", <<>>), Iface("I2", "a", <<"I1">>), Iface("I3", "b", <<>>),
+                  MkAtom("C", "struct", "a", <<Fld("X", "T8")>>, <<>>,
+                         <<Impl("I1", recv), Impl("I2", recv), Impl("I3", recv)>>, ""),
+                  StructT("S2", "a", <<Fld("F", bound)>>) >>
+      bind  == CASE mode = "ok"        -> <<BindL("B1", I, bound)>>
+                 [] mode = "self"      -> <<BindL("B1", I, I)>>
+                 [] mode = "unrelated" -> <<BindL("B1", I, "T8")>>
+                 [] OTHER              -> <<>>                       \* "nobind"
+      prov  == CASE how \in {"func", "nested"} -> <<Func("PC", <<>>, bound, FALSE, FALSE)>>
+                 [] how = "struct" -> <<StructL("SC", "C", <<>>, FALSE)>>
+                 [] how = "value"  -> <<ValueL("VC", bound)>>
+                 [] how = "field"  -> <<FieldsL("FC", "S2", <<"F">>), Func("PS2", <<>>, "S2", FALSE, FALSE)>>
+                 [] OTHER          -> <<>>                           \* "param"
+      extra == IF mode = "unrelated" THEN <<Func("PT8", <<>>, "T8", FALSE, FALSE)>> ELSE <<>>
+      cons  == <<Func("Q1", <<I>>, "T5", FALSE, FALSE)>>
+               \o (IF nI = 2 THEN <<Func("Q2", <<I>>, "T6", FALSE, FALSE)>> ELSE <<>>)
+               \o (IF nC = 1 THEN <<Func("QC", <<bound>>, "T7", FALSE, FALSE)>> ELSE <<>>)
+      top   == Func("Top", <<"T5">> \o (IF nI = 2 THEN <<"T6">> ELSE <<>>) \o (IF nC = 1 THEN <<"T7">> ELSE <<>>), "T9", FALSE, FALSE)
+      leaves == bind \o prov \o extra \o cons \o <<top>>
+      nb == Len(bind)  np == Len(prov)
+      ib == [j \in DOMAIN bind |-> ItL(j)]
+      ip == [j \in DOMAIN prov |-> ItL(nb + j)]
+      ir == [j \in 1..(Len(leaves) - nb - np) |-> ItL(nb + np + j)]
+      sets == CASE coloc = "inner" -> <<SetD("SetA", "a", ib \o ip)>>
+                [] coloc = "lacks" -> <<SetD("SetA", "a", ib)>>
+                [] coloc = "outer" -> <<SetD("SetA", "a", ip)>>
+                [] OTHER -> <<>>
+      items == CASE coloc = "inner" -> <<ItS(1)>> \o ir
+                 [] coloc = "lacks" -> <<ItS(1)>> \o ip \o ir
+                 [] coloc = "outer" -> <<ItS(1)>> \o ib \o ir
+                 [] OTHER -> ib \o ip \o ir
+      key == "B/" \o recv \o "/" \o bound \o "/" \o I \o "/" \o how \o "/i" \o ToString(nI) \o "c" \o ToString(nC) \o "/" \o coloc \o "/" \o mode
+  IN Prog(key, "B", atoms, leaves, sets,
+          <<Inj("Inject", IF how = "param" THEN <<Par("c0", bound)>> ELSE <<>>, "T9", FALSE, FALSE, items)>>)
+FamilyB(p) ==
+  \E recv \in {"value", "pointer"} : \E ptr \in BOOLEAN : \E ifc \in {"plain", "embed", "foreign"} :
+  \E how \in {"func", "struct", "value", "param", "field"} : \E nI \in {1, 2} : \E nC \in {0, 1} :
+  \E coloc \in {"same", "inner", "lacks", "outer"} : \E mode \in {"ok", "nobind", "self", "unrelated"} :
+    /\ mode # "ok" => (coloc = "same" /\ nI = 1 /\ ifc = "plain")
+    /\ how = "param" => coloc \in {"same", "lacks"}
+    /\ p = BProg(recv, ptr, ifc, how, nI, nC, coloc, mode)
+
+(* ======================================================================== *)
+(* Family S (struct and field providers).                                   *)
+(* S1 { A T1; B *T2; c T3; D T4 (prevented); a T5 } - exported, pointer     *)
+(* typed, unexported, prevented, and a field differing from A only in case. *)
+(* (1) wire.Struct(new(S1), sel...) for every selection incl. "*", unknown, *)
+(* prevented and wrong-case names; the injector asks for S1 or *S1.         *)
+(* (2) wire.FieldsOf over S1 / *S1 provided by a function, a parameter or a *)
+(* struct provider, for every non-empty subset of {A, B, c}, each consumed  *)
+(* as value or (pointer parent only) as pointer to the field.               *)
+(* ======================================================================== *)
+SAtoms(tagD) == << Tok("T1"), Tok("T2"), Tok("T3"), Tok("T4"), Tok("T5"), Tok("T9"),
+                   StructT("S1", "a", <<Fld("A", "T1"), Fld("B", "*T2"), Fld("c", "T3"), FldT("D", "T4", tagD), Fld("a", "T5")>>) >>
+SProviders == << Func("P1", <<>>, "T1", FALSE, FALSE), Func("P2", <<>>, "*T2", FALSE, FALSE), Func("P3", <<>>, "T3", FALSE, FALSE),
+                 Func("P4", <<>>, "T4", FALSE, FALSE), Func("P5", <<>>, "T5", FALSE, FALSE) >>
+SFieldNo(n) == CASE n = "A" -> 1 [] n = "B" -> 2 [] n = "c" -> 3 [] n = "D" -> 4 [] n = "a" -> 5 [] OTHER -> 0
+\* selection given as a sequence of names (or all = TRUE); only providers of selected valid fields are passed, so nothing is unused
+SStructProg(sel, all, ptr, tagD, keyx) ==
+  LET twin(n) == CASE n = "b" -> 2 [] n = "C" -> 3 [] n = "d" -> 4 [] OTHER -> SFieldNo(n)   \* a wrong-case name must not pick its twin
+      used == IF all THEN (IF tagD \in {"pre", "pre2"} THEN {1, 2, 3, 5} ELSE {1, 2, 3, 4, 5})
+              ELSE {twin(sel[i]) : i \in DOMAIN sel} \ {0}
+      us   == SeqOfSet(used)
+      leaves == <<StructL("St", "S1", sel, all)>> \o [i \in DOMAIN us |-> SProviders[us[i]]]
+      key  == "S/struct/" \o keyx \o "/" \o (IF ptr THEN "ptr" ELSE "val") \o "/D=" \o tagD
+  IN Prog(key, "S", SAtoms(tagD), leaves, <<>>,
+          <<Inj("Inject", <<>>, IF ptr THEN "*S1" ELSE "S1", FALSE, FALSE, [i \in DOMAIN leaves |-> ItL(i)])>>)
+SSelections ==
+  {<<>>, <<"A">>, <<"B">>, <<"c">>, <<"a">>, <<"A", "B">>, <<"B", "A">>, <<"A", "c">>, <<"A", "a">>, <<"a", "A">>, <<"B", "c", "a">>,
+   <<"A", "B", "c", "a">>, <<"D">>, <<"A", "D">>, <<"Z">>, <<"A", "Z">>, <<"b">>, <<"C">>, <<"d">>, <<"A", "A">>}
+FamilySStruct(p) ==
+  \E ptr \in BOOLEAN : \E tagD \in {"pre", "pre2", "foreign", "other"} :
+    \/ \E sel \in SSelections : (tagD = "pre" \/ \E i \in DOMAIN sel : sel[i] = "D") /\ p = SStructProg(sel, FALSE, ptr, tagD, ConcatStr([i \in DOMAIN sel |-> sel[i] \o ","]))
+    \/ p = SStructProg(<<>>, TRUE, ptr, tagD, "star")
+    \/ tagD = "pre" /\ \E x \in {"Z", "D", "A"} : p = SStructProg(<<"*", x>>, FALSE, ptr, tagD, "star+" \o x)
+
+\* FieldsOf: names = the listed fields; want[i] \in {"v","p"}: consumed by value / by pointer to the field
+SFieldsProg(pptr, src, names, want) ==
+  LET parent == IF pptr THEN "*S1" ELSE "S1"
+      ftype(n) == CASE n = "A" -> "T1" [] n = "B" -> "*T2" [] OTHER -> "T3"
+      ctype(i) == IF want[i] = "p" THEN Ptr(ftype(names[i])) ELSE ftype(names[i])
+      cons == Func("Q", [i \in DOMAIN names |-> ctype(i)], "T9", FALSE, FALSE)
+      psrc == CASE src = "func"   -> <<Func("PS", <<>>, parent, FALSE, FALSE)>>
+                [] src = "struct" -> <<StructL("St", "S1", <<"B">>, FALSE), Func("P2", <<>>, "*T2", FALSE, FALSE)>>
+                [] OTHER -> <<>>
+      leaves == <<FieldsL("FO", parent, names), cons>> \o psrc
+      key == "S/fields/" \o parent \o "/" \o src \o "/" \o ConcatStr([i \in DOMAIN names |-> names[i] \o want[i]])
+  IN Prog(key, "S", SAtoms("pre"), leaves, <<>>,
+          <<Inj("Inject", IF src = "param" THEN <<Par("s0", parent)>> ELSE <<>>, "T9", FALSE, FALSE, [i \in DOMAIN leaves |-> ItL(i)])>>)
+FamilySFields(p) ==
+  \E pptr \in BOOLEAN : \E src \in {"func", "param", "struct"} :
+  \E names \in {<<"A">>, <<"B">>, <<"c">>, <<"A", "B">>, <<"c", "A">>, <<"A", "B", "c">>} :
+  \E want \in [DOMAIN names -> {"v", "p"}] :
+    /\ ~pptr => \A i \in DOMAIN want : want[i] = "v"
+    /\ p = SFieldsProg(pptr, src, names, want)
+\* near misses: unknown / prevented / wrong-case names, *F wanted from a value parent, an unused listed name
+SFieldsBad(p) ==
+  \/ \E n \in {"Z", "D", "b", "C"} : \E pptr \in BOOLEAN :
+       p = [SFieldsProg(pptr, "func", <<"A">>, <<"v">>) EXCEPT !.key = "S/fieldsbad/" \o n \o (IF pptr THEN "/ptr" ELSE "/val"),
+                                                                !.leaves[1].names = <<n>>]
+  \/ p = [SFieldsProg(FALSE, "func", <<"A">>, <<"v">>) EXCEPT !.key = "S/fieldsbad/ptr-from-value", !.leaves[2].ins = <<"*T1">>]
+  \/ p = [SFieldsProg(TRUE, "func", <<"A">>, <<"v">>) EXCEPT !.key = "S/fieldsbad/unused-name", !.leaves[1].names = <<"A", "c">>]
+FamilyS(p) == FamilySStruct(p) \/ FamilySFields(p) \/ SFieldsBad(p)
+
+(* ======================================================================== *)
+(* Family Q (signatures).  Result lists of length 0..maxlen whose first     *)
+(* entry is the provided value and whose other entries range over           *)
+(* {value, error, func(), named func type, other func type, alias of error, *)
+(* error-like interface}: as a provider (direct, nested, in another         *)
+(* package, or in an unused corner of a set) and as the injector's own      *)
+(* result list against providers that need error / cleanup / both / none.   *)
+(* Plus parameter lists and field selections with identical types.          *)
+(* ======================================================================== *)
+QKinds == {"value", "error", "cleanup", "namedfunc", "otherfunc", "erralias", "errlike"}
+RECURSIVE QTails(_)
+QTails(k) == IF k = 0 THEN {<<>>} ELSE {<<x>> \o s : x \in QKinds, s \in QTails(k - 1)}
+QShapes(maxlen) == {<<>>} \cup UNION {{<<"value">> \o s : s \in QTails(k)} : k \in 0..(maxlen - 1)}
+QName(shape) == IF shape = <<>> THEN "none" ELSE ConcatStr([i \in DOMAIN shape |-> SubSeq(<<"v", "e", "c", "n", "o", "a", "l">>,
+                   CHOOSE j \in 1..7 : <<"value", "error", "cleanup", "namedfunc", "otherfunc", "erralias", "errlike">>[j] = shape[i],
+                   CHOOSE j \in 1..7 : <<"value", "error", "cleanup", "namedfunc", "otherfunc", "erralias", "errlike">>[j] = shape[i])[1]])
+\* an explicit result list is marked by res; <<>> (no results) is written as <<"none">> so that it is not "derived"
+QRes(shape) == IF shape = <<>> THEN <<"none">> ELSE shape
+QProvProg(shape, place) ==
+  LET pp == IF place = "otherpkg" THEN "b" ELSE "a"
+      tp == IF place = "otherpkg" THEN "b" ELSE "a"
+      bad == [FuncIn("P1", pp, <<>>, "T1", FALSE, FALSE) EXCEPT !.res = QRes(shape)]
+      p2  == FuncIn("P2", pp, <<>>, "T2", FALSE, FALSE)
+      key == "Q/prov/" \o QName(shape) \o "/" \o place
+  IN Prog(key, "Q", <<TokIn("T1", tp), TokIn("T2", tp)>>, <<bad, p2>>,
+          CASE place = "direct" -> <<>>
+            [] place = "unused" -> <<SetD("SetA", "a", <<ItL(1), ItL(2)>>)>>
+            [] OTHER -> <<SetD("SetA", pp, <<ItL(1)>>)>>,
+          <<Inj("Inject", <<>>, IF place = "unused" THEN "T2" ELSE "T1", TRUE, TRUE,
+                IF place = "direct" THEN <<ItL(1)>> ELSE <<ItS(1)>>)>>)
+QInjProg(shape, need) ==
+  LET key == "Q/inj/" \o QName(shape) \o "/" \o need
+  IN Prog(key, "Q", <<Tok("T1")>>, <<Func("P1", <<>>, "T1", FlCl(need), FlEr(need))>>, <<>>,
+          <<[Inj("Inject", <<>>, "T1", FALSE, FALSE, <<ItL(1)>>) EXCEPT !.res = QRes(shape)]>>)
+\* identical parameter / field types
+QDupProg(v) ==
+  LET atoms == <<Tok("T1"), Tok("T2"), StructT("S4", "a", <<Fld("X", "T2"), Fld("Y", "T2"), Fld("Z", "*T2")>>)>>
+      p2 == Func("P2", <<>>, "T2", FALSE, FALSE)   pp2 == Func("PP2", <<>>, "*T2", FALSE, FALSE)
+      psl == [Func("PSl", <<>>, "[]T2", FALSE, FALSE) EXCEPT !.name = "PSl"]
+      mk(leaves, out) == Prog("Q/dup/" \o v, "Q", atoms, leaves, <<>>, <<Inj("Inject", <<>>, out, FALSE, FALSE, [i \in DOMAIN leaves |-> ItL(i)])>>)
+  IN CASE v = "func-same"      -> mk(<<Func("P1", <<"T2", "T2">>, "T1", FALSE, FALSE), p2>>, "T1")
+       [] v = "func-ptr"       -> mk(<<Func("P1", <<"T2", "*T2">>, "T1", FALSE, FALSE), p2, pp2>>, "T1")
+       [] v = "func-variadic"  -> mk(<<[Func("P1", <<"T2", "[]T2">>, "T1", FALSE, FALSE) EXCEPT !.va = TRUE], p2, psl>>, "T1")
+       [] v = "func-var-same"  -> mk(<<[Func("P1", <<"[]T2", "[]T2">>, "T1", FALSE, FALSE) EXCEPT !.va = TRUE], psl>>, "T1")
+       [] v = "struct-same"    -> mk(<<StructL("St", "S4", <<"X", "Y">>, FALSE), p2>>, "S4")
+       [] v = "struct-ptr"     -> mk(<<StructL("St", "S4", <<"X", "Z">>, FALSE), p2, pp2>>, "S4")
+       [] v = "struct-star"    -> mk(<<StructL("St", "S4", <<>>, TRUE), p2, pp2>>, "*S4")
+       [] v = "struct-one"     -> mk(<<StructL("St", "S4", <<"Y">>, FALSE), p2>>, "*S4")
+FamilyQ(p, maxlen) ==
+  \/ \E s \in QShapes(maxlen) : \E pl \in {"direct", "nested", "otherpkg", "unused"} : p = QProvProg(s, pl)
+  \/ \E s \in QShapes(maxlen) : \E nd \in {"p", "e", "c", "b"} : p = QInjProg(s, nd)
+  \/ \E v \in {"func-same", "func-ptr", "func-variadic", "func-var-same", "struct-same", "struct-ptr", "struct-star", "struct-one"} : p = QDupProg(v)
+
+(* ======================================================================== *)
+(* Family U (unused direct items).  Three accepted bases - a chain, an      *)
+(* injector that returns its own argument, an injector that returns its     *)
+(* argument through a binding - each extended by one superfluous direct     *)
+(* item of every kind; and accepted programs whose direct items are used    *)
+(* only indirectly.                                                         *)
+(* ======================================================================== *)
+UAtoms == << Tok("T1"), Tok("T2"), Tok("T5"), Tok("T6"), Tok("T9"), TokIn("T8", "b"),
+             Iface("I1", "a", <<>>), Iface("I2", "a", <<>>),
+             MkAtom("C", "tok", "a", <<>>, <<>>, <<Impl("I1", "pointer"), Impl("I2", "pointer")>>, ""),
+             StructT("S1", "a", <<Fld("X", "T2")>>), StructT("S2", "a", <<Fld("F", "T5"), Fld("G", "T6")>>) >>
+\* base: [leaves, params, out]
+UBase(b) ==
+  CASE b = "chain"   -> [leaves |-> <<Func("P1", <<"T2">>, "T1", FALSE, FALSE), Func("P2", <<>>, "T2", FALSE, FALSE)>>, params |-> <<>>, out |-> "T1"]
+    [] b = "argout"  -> [leaves |-> <<>>, params |-> <<Par("x", "T1")>>, out |-> "T1"]
+    [] b = "argbind" -> [leaves |-> <<BindL("B0", "I1", "*C")>>, params |-> <<Par("x", "*C")>>, out |-> "I1"]
+    [] b = "bindused"-> [leaves |-> <<BindL("B0", "I1", "*C"), Func("PC", <<>>, "*C", FALSE, FALSE), Func("P1", <<"I1">>, "T1", FALSE, FALSE)>>, params |-> <<>>, out |-> "T1"]
+\* extra: [leaves (appended), sets, items (direct items added; leaf indices relative to the extra leaves, sets by index)]
+UExtra(x) ==
+  CASE x = "func"     -> [leaves |-> <<Func("F9", <<>>, "T9", FALSE, FALSE)>>, sets |-> <<>>, direct |-> <<1>>, dsets |-> <<>>]
+    [] x = "struct"   -> [leaves |-> <<StructL("St", "S1", <<>>, FALSE)>>, sets |-> <<>>, direct |-> <<1>>, dsets |-> <<>>]
+    [] x = "value"    -> [leaves |-> <<ValueL("V9", "T9")>>, sets |-> <<>>, direct |-> <<1>>, dsets |-> <<>>]
+    [] x = "ivalue"   -> [leaves |-> <<IValueL("IV", "I2", "*C")>>, sets |-> <<>>, direct |-> <<1>>, dsets |-> <<>>]
+    [] x = "bind"     -> [leaves |-> <<BindL("B9", "I2", "*C")>>, sets |-> <<>>, direct |-> <<1>>, dsets |-> <<>>]
+    [] x = "fields"   -> [leaves |-> <<FieldsL("FO", "S2", <<"F">>), Func("PS2", <<>>, "S2", FALSE, FALSE)>>, sets |-> <<>>, direct |-> <<1, 2>>, dsets |-> <<>>]
+    [] x = "set"      -> [leaves |-> <<Func("F9", <<>>, "T9", FALSE, FALSE)>>, sets |-> <<"a">>, direct |-> <<>>, dsets |-> <<1>>]
+    [] x = "setpkg"   -> [leaves |-> <<FuncIn("F8", "b", <<>>, "T8", FALSE, FALSE)>>, sets |-> <<"b">>, direct |-> <<>>, dsets |-> <<1>>]
+    [] x = "emptyset" -> [leaves |-> <<>>, sets |-> <<"a">>, direct |-> <<>>, dsets |-> <<1>>]
+    [] x = "none"     -> [leaves |-> <<>>, sets |-> <<>>, direct |-> <<>>, dsets |-> <<>>]
+UProg(b, x) ==
+  LET B == UBase(b)  X == UExtra(x)
+      nb == Len(B.leaves)
+      leaves == B.leaves \o X.leaves
+      xs == [j \in DOMAIN X.leaves |-> ItL(nb + j)]
+      sets == IF X.sets = <<>> THEN <<>> ELSE <<SetD("SetX", X.sets[1], xs)>>
+      items == [j \in 1..nb |-> ItL(j)] \o [j \in DOMAIN X.direct |-> ItL(nb + X.direct[j])] \o [j \in DOMAIN X.dsets |-> ItS(X.dsets[j])]
+  IN Prog("U/" \o b \o "/" \o x, "U", UAtoms, leaves, sets, <<Inj("Inject", B.params, B.out, FALSE, FALSE, items)>>)
+\* items used only indirectly: all must be accepted
+UIndirect(v) ==
+  LET mk(leaves, sets, items, out) == Prog("U/indirect/" \o v, "U", UAtoms, leaves, sets, <<Inj("Inject", <<>>, out, FALSE, FALSE, items)>>)
+      p1 == Func("P1", <<"T2">>, "T1", FALSE, FALSE)  p2 == Func("P2", <<>>, "T2", FALSE, FALSE)
+  IN CASE v = "nested2"  -> mk(<<p1, p2>>, <<SetD("SetB", "a", <<ItL(2)>>), SetD("SetA", "a", <<ItS(1)>>)>>, <<ItS(2), ItL(1)>>, "T1")
+       [] v = "struct-ptr-only" -> mk(<<StructL("St", "S1", <<"X">>, FALSE), p2, Func("Q", <<"*S1">>, "T1", FALSE, FALSE)>>, <<>>, <<ItL(1), ItL(2), ItL(3)>>, "T1")
+       [] v = "struct-val-only" -> mk(<<StructL("St", "S1", <<"X">>, FALSE), p2, Func("Q", <<"S1">>, "T1", FALSE, FALSE)>>, <<>>, <<ItL(1), ItL(2), ItL(3)>>, "T1")
+       [] v = "fieldptr-only"   -> mk(<<FieldsL("FO", "*S2", <<"F">>), Func("PS2", <<>>, "*S2", FALSE, FALSE), Func("Q", <<"*T5">>, "T1", FALSE, FALSE)>>, <<>>, <<ItL(1), ItL(2), ItL(3)>>, "T1")
+       [] v = "bind-only"       -> mk(<<BindL("B0", "I1", "*C"), Func("PC", <<>>, "*C", FALSE, FALSE), Func("Q", <<"I1">>, "T1", FALSE, FALSE)>>, <<>>, <<ItL(1), ItL(2), ItL(3)>>, "T1")
+       [] v = "set-one-of-many" -> mk(<<p2, Func("F9", <<>>, "T9", FALSE, FALSE), Func("F5", <<>>, "T5", FALSE, FALSE), p1>>, <<SetD("SetA", "a", <<ItL(1), ItL(2), ItL(3)>>)>>, <<ItS(1), ItL(4)>>, "T1")
+       [] v = "fields-partial"  -> mk(<<FieldsL("FO", "S2", <<"F", "G">>), Func("PS2", <<>>, "S2", FALSE, FALSE), Func("Q", <<"T5">>, "T1", FALSE, FALSE)>>, <<>>, <<ItL(1), ItL(2), ItL(3)>>, "T1")
+       [] v = "two-binds-one-conc" -> mk(<<BindL("B0", "I1", "*C"), BindL("B9", "I2", "*C"), Func("PC", <<>>, "*C", FALSE, FALSE), Func("Q", <<"I1", "I2">>, "T1", FALSE, FALSE)>>, <<>>, <<ItL(1), ItL(2), ItL(3), ItL(4)>>, "T1")
+FamilyU(p) ==
+  \/ \E b \in {"chain", "argout", "argbind", "bindused"} :
+       \E x \in {"none", "func", "struct", "value", "ivalue", "bind", "fields", "set", "setpkg", "emptyset"} :
+         /\ (x = "bind" => b \in {"argbind", "bindused"})       \* a second binding to the same concrete type
+         /\ (x = "ivalue" => b \in {"argbind", "bindused"})
+         /\ (x = "struct" => b = "chain")
+         /\ p = UProg(b, x)
+  \/ \E v \in {"nested2", "struct-ptr-only", "struct-val-only", "fieldptr-only", "bind-only", "set-one-of-many", "fields-partial", "two-binds-one-conc"} : p = UIndirect(v)
+
+(* ======================================================================== *)
+(* Family M (regrouping and reordering).  A well-formed base program; every *)
+(* variant places each leaf directly in wire.Build or in SetA / SetB / SetC *)
+(* (SetC nested in SetA; SetB and SetC in the injector's package or in      *)
+(* another one), keeps each binding next to the provider of its concrete    *)
+(* type, and lists the direct items in one of several orders.               *)
+(* All types and provider functions live in package "c".                    *)
+(* ======================================================================== *)
+MAtoms == << TokIn("T1", "c"), TokIn("T2", "c"), TokIn("T3", "c"), TokIn("T5", "c"), TokIn("T6", "c"), TokIn("T7", "c"),
+             Iface("I1", "c", <<>>), MkAtom("C", "tok", "c", <<>>, <<>>, <<Impl("I1", "pointer")>>, ""),
+             StructT("S1", "c", <<Fld("X", "T2"), Fld("Y", "T3")>>), StructT("S2", "c", <<Fld("F", "T5"), Fld("G", "T6")>>) >>
+MF(name, ins, out) == FuncIn(name, "c", ins, out, FALSE, FALSE)
+\* [leaves, out, bindOf: leaf index of a binding -> leaf index of the provider of its concrete type (0 = none)]
+MBase(b) ==
+  CASE b = 1 -> [leaves |-> <<MF("P1", <<"T2", "T3">>, "T1"), MF("P2", <<"T3">>, "T2"), MF("P3", <<>>, "T3")>>, out |-> "T1", tie |-> <<>>]
+    [] b = 2 -> [leaves |-> <<MF("Top", <<"I1", "*S1">>, "T1"), BindL("B", "I1", "*C"), MF("PC", <<"T3">>, "*C"),
+                             StructL("St", "S1", <<>>, TRUE), MF("P2", <<>>, "T2"), MF("P3", <<>>, "T3")>>, out |-> "T1", tie |-> <<<<2, 3>>>>]
+    [] b = 3 -> [leaves |-> <<MF("Q", <<"T5", "*T6", "T7">>, "T1"), FieldsL("FO", "*S2", <<"F", "G">>), MF("PS2", <<>>, "*S2"), ValueL("V7", "T7")>>,
+                 out |-> "T1", tie |-> <<>>]
+Perm(s, how) ==
+  CASE how = "id"  -> s
+    [] how = "rev" -> [i \in DOMAIN s |-> s[Len(s) + 1 - i]]
+    [] how = "rot" -> IF s = <<>> THEN s ELSE Tail(s) \o <<Head(s)>>
+MProg(b, g, how, pb, pc) ==
+  LET B == MBase(b)
+      n == Len(B.leaves)
+      inA == SeqOfSet({i \in 1..n : g[i] = "A"})  inB == SeqOfSet({i \in 1..n : g[i] = "B"})
+      inC == SeqOfSet({i \in 1..n : g[i] = "C"})  inD == SeqOfSet({i \in 1..n : g[i] = "d"})
+      hasC == inC # <<>>   hasA == inA # <<>> \/ hasC   hasB == inB # <<>>
+      \* set indices: C = 1 (if any), A next, B next
+      iC == 1  iA == IF hasC THEN 2 ELSE 1  iB == (IF hasC THEN 1 ELSE 0) + (IF hasA THEN 1 ELSE 0) + 1
+      sets == (IF hasC THEN <<SetD("SetC", pc, Perm(Items(inC), how))>> ELSE <<>>)
+              \o (IF hasA THEN <<SetD("SetA", "a", Perm(Items(inA) \o (IF hasC THEN <<ItS(iC)>> ELSE <<>>), how))>> ELSE <<>>)
+              \o (IF hasB THEN <<SetD("SetB", pb, Perm(Items(inB), how))>> ELSE <<>>)
+      items == Perm(Items(inD) \o (IF hasA THEN <<ItS(iA)>> ELSE <<>>) \o (IF hasB THEN <<ItS(iB)>> ELSE <<>>), how)
+      key == "M/b" \o ToString(b) \o "/" \o ConcatStr(g) \o "/" \o how \o "/" \o pb \o pc
+  IN [Prog(key, "M", MAtoms, B.leaves, sets, <<Inj("Inject", <<>>, B.out, FALSE, FALSE, items)>>) EXCEPT !.fam = "M"]
+FamilyM(p, bases) ==
+  \E b \in bases : \E g \in [1..Len(MBase(b).leaves) -> {"d", "A", "B", "C"}] :
+    /\ \A i \in DOMAIN MBase(b).tie : g[MBase(b).tie[i][1]] = g[MBase(b).tie[i][2]]
+    /\ \E how \in {"id", "rev", "rot"} : \E pb \in {"a", "b"} : \E pc \in {"a", "b"} :
+         /\ (\A i \in DOMAIN g : g[i] # "B") => pb = "a"
+         /\ (\A i \in DOMAIN g : g[i] # "C") => pc = "a"
+         /\ p = MProg(b, g, how, pb, pc)
 =============================================================================
